@@ -94,6 +94,15 @@ def run(ctx):
         ctx.ob("C16.2", "%s|header-line-untrimmed|%d" % (g.id, i),
                "the header line reaches Header::from_str with its leading whitespace intact (a leading trim would turn ` Name: v` / obs-fold lines into valid headers)",
                from_line and not bad, g.loc(bb), None if (from_line and not bad) else "leading-whitespace remover on the way: %s (%s)" % ([short(b) for b in bad], origin_str(o)))
+    # the end-of-head test must look at the line as received: a line made only of blanks is not the empty line
+    # (it has to reach the header parser and be rejected), so nothing may strip it before `is_empty`
+    emp = [(bb, t) for bb, t in g.calls() if call_matches(t, r"::is_empty$") and origin_has_call(g.origin(t["args"][0]), r"ClientConnection::read_next_line$")]
+    ctx.ob("C16.2", "%s|empty-line-test-present" % g.id, "(anchor) the head ends at an empty line", bool(emp), "%s:%d" % (g.file, g.line), nontrivial=False)
+    for i, (bb, t) in enumerate(emp):
+        o = g.origin(t["args"][0])
+        bad = [x[1] for x in origin_calls(o) if re.search(r"<impl str>::trim|strip_|split_whitespace|trim_ascii", x[1])]
+        ctx.ob("C16.2", "%s|empty-line-untrimmed|%d" % (g.id, i), "the end-of-head test is made on the untrimmed line (a whitespace-only line is a malformed header, not the end of the head)",
+               not bad, g.loc(bb), None if not bad else "the line is stripped (%s) before the empty-line test: ` ` + CRLF ends the head and the rest of the head is parsed as a new request" % [short(b) for b in bad])
     # any other local caller of Header::from_str on client text
     for h, bb, t in facts.all_calls(lambda t: call_is(t, hd.id) or call_matches(t, r"parse::<common::Header>$")):
         if h.id == g.id:
@@ -107,7 +116,11 @@ def run(ctx):
         for bb, t in h.calls():
             if INT_PARSE.search(call_name(t)) or INT_PARSE.search(t.get("res_name") or ""):
                 parses.append((h, bb, t))
-    ctx.floor("C16.3 integer parses in new_request", len(parses), 1)
+    if not parses:
+        ctx.ob("C16.3", "%s|content-length-digits-only|0" % nr.id,
+               "only 1*DIGIT is accepted: the Content-Length text is converted by a recognised integer parser behind a digits-only test",
+               False, "%s:%d" % (nr.file, nr.line),
+               "no recognised integer parse of the Content-Length value in new_request: a hand-written conversion cannot be shown to reject the empty value, signs, lists or overflow")
     errs_ret = {bb for bb, i, s in nr.assigns() if s["lhs"] == {"l": 0, "p": []} and s["rhs"].get("variant") == "Err"}
     for k, (h, bb, t) in enumerate(parses):
         ctx.touch(h, calls=1)
